@@ -288,8 +288,11 @@ impl DIDUrl {
     let url: RelativeDIDUrl = {
       let mut url: RelativeDIDUrl = RelativeDIDUrl::new();
       url.set_path(Some(did_url.path()))?;
-      url.set_query(did_url.query())?;
-      url.set_fragment(did_url.fragment())?;
+      // The parser reports query and fragment without their delimiter while the setters ignore one leading
+      // delimiter: pass the delimiter along so that `??a` keeps the query `?a` and an empty query or fragment
+      // (`did:example:123?`) is rejected instead of being dropped silently.
+      url.set_query(did_url.query().map(|query| format!("?{query}")).as_deref())?;
+      url.set_fragment(did_url.fragment().map(|fragment| format!("#{fragment}")).as_deref())?;
       url
     };
 
